@@ -4,6 +4,11 @@ from .. import ir
 
 
 class CJumpPass(InstructionPass):
+    def on_function(self, function):
+        super().on_function(function)
+        # Blocks behind a removed edge may no longer be reachable:
+        function.delete_unreachable()
+
     def on_instruction(self, instruction):
         if (
             isinstance(instruction, ir.CJump)
@@ -22,9 +27,16 @@ class CJumpPass(InstructionPass):
             }
             if mp[instruction.cond](a, b):
                 label = instruction.lab_yes
+                dropped = instruction.lab_no
             else:
                 label = instruction.lab_no
+                dropped = instruction.lab_yes
             block = instruction.block
             block.remove_instruction(instruction)
             block.add_instruction(ir.Jump(label))
             instruction.delete()
+            if dropped is not label:
+                # The edge block -> dropped is gone, so are its phi inputs:
+                for phi in dropped.phis:
+                    if block in phi.inputs:
+                        phi.del_incoming(block)
